@@ -31,13 +31,11 @@ class Recorder:
         return y
 
 
-def make_system(rng, nr):
-    n = rng.randint(1, 3)
-    A = nr.normal(size=(n, n)) + 3 * np.eye(n)
-    root = nr.uniform(-1, 1, size=n)
-    cub = nr.uniform(0, 0.3)
-    kind = rng.choice(['plain', 'plain', 'invalid-half', 'invalid-far', 'invalid-all', 'log', 'log'])
-    thr = root[0] + nr.uniform(0.3, 1.0)
+def system_from_desc(desc):
+    """the residual function of a recorded/generated test system"""
+    n, kind = desc['n'], desc['kind']
+    A, root, start = np.array(desc['A']), np.array(desc['root']), np.array(desc['start'])
+    cub, thr = desc['cub'], desc['thr']
 
     def f(x):
         if kind == 'invalid-half' and x[0] > thr:
@@ -55,13 +53,24 @@ def make_system(rng, nr):
             out[0] = np.log(x[0]) - np.log(r0) + (0.1 * d[1] if n > 1 else 0.0)
             return out
         return A @ d + cub * d ** 3
+    return f
+
+
+def make_system(rng, nr):
+    n = rng.randint(1, 3)
+    A = nr.normal(size=(n, n)) + 3 * np.eye(n)
+    root = nr.uniform(-1, 1, size=n)
+    cub = nr.uniform(0, 0.3)
+    kind = rng.choice(['plain', 'plain', 'invalid-half', 'invalid-far', 'invalid-all', 'log', 'log'])
+    thr = root[0] + nr.uniform(0.3, 1.0)
     start = root + nr.uniform(-2, 2, size=n) * (0.2 if kind == 'invalid-half' else 1.0)
     if kind == 'invalid-half':
         start[0] = min(start[0], thr - 0.05)
     if kind == 'log':
         start = root + nr.uniform(-0.5, 0.5, size=n)
         start[0] = (abs(root[0]) * 0.1 + 0.02) * nr.uniform(8, 40)
-    return f, start, dict(n=n, kind=kind, A=A.tolist(), root=root.tolist(), cub=float(cub), thr=float(thr), start=start.tolist())
+    desc = dict(n=n, kind=kind, A=A.tolist(), root=root.tolist(), cub=float(cub), thr=float(thr), start=start.tolist())
+    return system_from_desc(desc), start, desc
 
 
 def run_solver(name, f, x0, tol, maxcount):
@@ -177,12 +186,17 @@ def correspondence(ctx):
 
 # ---------------------------------------------------------------------------------------------------
 
-def check_solver(rng, nr):
-    f, x0, desc = make_system(rng, nr)
-    name = rng.choice(['newton_solver', 'broyden_solver'])
-    tol = 10.0 ** -rng.randint(6, 10)
-    out, log = run_solver(name, f, x0, tol, rng.choice([2, 5, 50]))
-    inp = dict(kind='solver', solver=name, tol=tol, system=desc)
+def check_solver(rng, nr, fixed=None):
+    if fixed is None:
+        f, x0, desc = make_system(rng, nr)
+        name = rng.choice(['newton_solver', 'broyden_solver'])
+        tol = 10.0 ** -rng.randint(6, 10)
+        maxcount = rng.choice([2, 5, 50])
+    else:
+        desc, name, tol, maxcount = fixed['system'], fixed['solver'], fixed['tol'], fixed.get('maxcount', 50)
+        f, x0 = system_from_desc(desc), np.array(desc['start'])
+    out, log = run_solver(name, f, x0, tol, maxcount)
+    inp = dict(kind='solver', solver=name, tol=tol, maxcount=maxcount, system=desc)
     if out[0] == 'other':
         if 'invalid region' in out[1]:
             return None           # the residual's own error escaped from the (unprotected) finite-difference Jacobian: loud, not a silent return
@@ -198,10 +212,18 @@ def check_solver(rng, nr):
                         observed=dict(x=x.tolist(), y=y.tolist(), f_x=fy.tolist()), signature=dict(op='y-not-f(x)', solver=name))
         if not np.max(np.abs(y)) < tol:
             return dict(what=f'{name} returned although the residual is not below the tolerance', input=inp, observed=y.tolist(), signature=dict(op='tol', solver=name))
-    elif desc['kind'] in ('plain', 'invalid-half', 'log') and out[0] == 'backtracks' and name == 'broyden_solver':
-        # Broyden must recover from an invalid region by backtracking: 30 halvings of a step that starts valid always re-enter the valid region
-        return dict(what='broyden_solver gave up with "Too many backtracks" although halving the step re-enters the valid region', input=inp,
-                    signature=dict(op='no-recovery', solver=name))
+    elif out[0] == 'backtracks':
+        # giving up is allowed only after the documented 30 consecutive failed trials (a point very close to the boundary of the valid region
+        # can need more halvings than that: a legitimate raise); giving up earlier, or after a trial that succeeded, is not recovery by backtracking
+        tail = 0
+        for ph, _, yv in reversed(log):       # Broyden backtracks only on ValueError; Newton also on lack of improvement (its Jacobian calls separate the iterations)
+            if ph == 'trial' and (yv is None or name == 'newton_solver'):
+                tail += 1
+            else:
+                break
+        if tail < 30:
+            return dict(what=f'{name} gave up with "Too many backtracks" after only {tail} consecutive failed trial evaluations (30 halvings are documented)', input=inp,
+                        signature=dict(op='no-recovery', solver=name))
     return None
 
 
@@ -314,6 +336,8 @@ def replay(rp):
     if c.get('kind') == 'specs':
         b = check_specs()
         return b[0] if b else None
+    if c.get('kind') == 'solver' and 'system' in c:
+        return check_solver(None, None, fixed=c)
     rng, nr = C.Rng(7), np.random.default_rng(7)
     f = dict(solver=check_solver, bounds=check_bounds).get(c.get('kind'))
     if not f:
